@@ -327,6 +327,8 @@ def base_programs():
                                      edges=[edge("aq", "gen"), edge("gen", "ar"), edge("ar", "aq")])))
     P.append(("explicit-vals", prog([fn("a", ["x"], ["m", "t"]), fn("b", ["m", "t"], ["m"]), fn("c", ["m"], ["w"])],
                                     edges=[edge("a", "b", ["m", "t"]), edge("b", "c", ["m"])])))
+    P.append(("explicit-fanout", prog([fn("a", ["x"], ["v", "u"]), fn("b", ["v"], ["p"]), fn("c", ["u"], ["q"]), fn("d", ["v", "u"], ["r"])],
+                                      edges=[edge("a", "b", ["v"]), edge("a", "c", ["u"]), edge("a", "d", ["v", "u"])])))
     P.append(("explicit-ordering", prog([fn("a", ["x"], ["m"]), fn("b", ["x"], ["m"]), fn("c", ["m"], ["w"])],
                                         edges=[edge("a", "b"), edge("b", "c")])))
     P.append(("explicit-gate", prog([ifelse("g", ["x"], "a", "b"), fn("a", ["x"], ["r"]), fn("b", ["x"], ["r"]),
